@@ -131,6 +131,37 @@ def fam_storage(rnd: random.Random, ninputs: int = 10, transient: bool = False):
     # a fully concrete location, so that the PUSH32 form is exercised
     if rnd.random() < 0.5:
         locs.append(gen_loc(rnd, rnd.randint(1, 2), nin, sym_ok=False))
+    # the "concretised twin" of a location with symbolic keys: every (or every other) calldata word replaced by a
+    # constant of the small input domain - for the inputs that hit the constants both denote ONE slot, written once
+    # with symbolic and once with concrete keys (partly or fully precomputable hashes)
+    def short_keys(L):
+        return (L[0] == "map" and (L[3] != 32 or short_keys(L[2]))) or (L[0] == "arr" and short_keys(L[1])) or (L[0] == "off" and short_keys(L[1]))
+
+    # (mappings with short keys included: a concrete key hashed at run time must match a symbolic one - fixed defect,
+    # probe short-key-concrete-vs-symbolic in checks/c08.py)
+    symlocs = [L for L in locs if not loc_concrete(L) and L[0] != "slot"]
+    if symlocs and rnd.random() < 0.6:
+        every = rnd.random() < 0.5
+        cnt = [0]
+
+        def twin(L):
+            def w(e):
+                if e[0] == "in":
+                    cnt[0] += 1
+                    if every or cnt[0] % 2:
+                        return ("c", rnd.choice([0, 1, 2, 3]))
+                return e
+
+            t = L[0]
+            if t == "slot":
+                return L
+            if t == "map":
+                return ("map", w(L[1]), twin(L[2]), L[3])
+            if t == "arr":
+                return ("arr", twin(L[1]), w(L[2]))
+            return ("off", twin(L[1]), L[2])
+
+        locs.append(twin(rnd.choice(symlocs)))
     st, ld = ("TSTORE", "TLOAD") if transient else ("SSTORE", "SLOAD")
     body = []
     out = 0
